@@ -64,6 +64,11 @@ int main() {
   O(RawBuffer_data, RawBuffer, data_); O(RawBuffer_length, RawBuffer, length_); S(RawBuffer, RawBuffer);
   O(AddressParser_host, AddressParser, host_); O(AddressParser_port, AddressParser, port_); O(AddressParser_hasColon, AddressParser, hasColon_); O(AddressParser_family, AddressParser, family_); S(AddressParser, AddressParser);
   O(Address_port, Address, port_); S(Address, Address); O(Port_port, Port, port); S(Port, Port);
+  O(Transport_toWrite, Tcp::Transport, toWrite); O(Transport_toWriteLock, Tcp::Transport, toWriteLock); S(Transport, Tcp::Transport);
+  O(WriteEntry_deferred, Tcp::Transport::WriteEntry, deferred); O(WriteEntry_buffer, Tcp::Transport::WriteEntry, buffer); O(WriteEntry_flags, Tcp::Transport::WriteEntry, flags); O(WriteEntry_peerFd, Tcp::Transport::WriteEntry, peerFd); S(WriteEntry, Tcp::Transport::WriteEntry);
+  O(BufferHolder_raw, Tcp::Transport::BufferHolder, _raw); O(BufferHolder_fd, Tcp::Transport::BufferHolder, _fd); O(BufferHolder_size, Tcp::Transport::BufferHolder, size_); O(BufferHolder_offset, Tcp::Transport::BufferHolder, offset_); O(BufferHolder_type, Tcp::Transport::BufferHolder, type); S(BufferHolder, Tcp::Transport::BufferHolder);
+  O(Deferred_resolver, Async::Deferred<ssize_t>, resolver); O(Deferred_rejection, Async::Deferred<ssize_t>, rejection); S(Deferred, Async::Deferred<ssize_t>);
+  printf("#define SIZEOF_WriteDeque %zu\n", sizeof(std::deque<Tcp::Transport::WriteEntry>));
   printf("#define VP_METHOD_NAMES ");
 #define METHOD(repr, str) printf("\"%s\",", str);
   HTTP_METHODS
